@@ -270,15 +270,19 @@ PROPS["C14"] = Prop(
 
 PROPS["C15"] = Prop(
     "C15",
-    family_driver={"ratec": ("drv_rateconst", "plain")},
+    family_driver={"ratec": ("drv_rateconst", "plain"), "ratef": ("drv_rateconst", "plain")},
     model_families={"ratec"},
-    generate=lambda rng, tier: G.gen_ratec(rng, tier),
+    generate=lambda rng, tier: G.gen_ratec(rng, tier) + G.gen_ratef(rng, tier),
     rule="built solvers with 1-6 reactions mixing probe rate constants (0-3 custom parameters, encoding their id, the "
          "cell's temperature and pressure and their own parameters), user-defined and Arrhenius constants, 0-2 parameterised "
          "reactants each; row-major and grouped L=1..5, every cell count 1..3L+1; parameters set by label (reverse order) or "
          "positionally; distinct integer values per (cell, column); the whole rate-constant storage compared incl. padding",
     trusted=COMMON_TRUST + ["probe RateConstant subclass (harness only)"],
-    assumptions=["built-in formulas (exp/pow/log10) are oracles in the theorem; they are not compared here"],
+    assumptions=["built-in formulas (exp/pow/log10) are opaque in the theorem; family ratef compares every built-in type "
+                 "(Arrhenius, Troe, ternary chemical activation, tunneling, branched, user defined, surface) with a long-double "
+                 "transcription of its documented formula at random parameters (negative exponents included) and conditions "
+                 "T 150-350 K, P 1-1.1e5 Pa, 1e-11 relative: validation, not proof"],
+    oracle_tokens=["ORACLE_RATE_CONSTANT_"],
 )
 
 PROPS["C17"] = Prop(
@@ -287,7 +291,8 @@ PROPS["C17"] = Prop(
     model_families={"vsem"},
     generate=lambda rng, tier: G.gen_vsem(rng, tier),
     rule="random sequences of 3-12 (quick) / 3-30 (thorough) operations GetState / copy-construct / copy-assign / "
-         "move-construct / move-assign / set / solve / solver move over 4 State variables, Rosenbrock and backward Euler, "
+         "move-construct / move-assign / set / solve / solve with another parameter set (fewer / more stages) / solver move "
+         "over 4 State variables, Rosenbrock and backward Euler, "
          "row-major + separate LU and grouped L=3 + in-place LU, under ASan+UBSan; every solve is compared bit for bit with "
          "the same problem on a fresh State and the other States are checked unchanged; non-trivial = contains a solve "
          "after a copy or move",
@@ -372,3 +377,16 @@ PROPS["C18"] = Prop(
     oracle_tokens=["ORACLE_JIT_"],
     case_timeout=900,
 )
+
+# C08, second clause: accuracy on problems with known solutions (assembled solvers, scenario "acc")
+_c08_tables = PROPS["C08"].generate
+PROPS["C08"].family_driver = dict(_slv_drv)
+PROPS["C08"].generate = lambda rng, tier: _c08_tables(rng, tier) + G.gen_slv_acc(rng, tier)
+PROPS["C08"].oracle_tokens = ["ORACLE_ERROR_EXCEEDS_TOLERANCE_PER_ACCEPTED_STEP", "ORACLE_BACKWARD_EULER_NOT_THE_IMPLICIT_EULER_MAP"]
+PROPS["C08"].histogram = _slv_hist
+PROPS["C08"].rule += ("; accuracy: the chain A -> B -> C with per-cell rate constants (0.05..5 /s, ratios 0.2..6) on 1..3L+1 (and 9) "
+                      "cells, L in {row-major, 2, 3, 4}, five parameter sets, rtol 1e-4..1e-8, atol 1e-13, time steps 0.5..10 s: "
+                      "Rosenbrock against the Bateman solution (error <= (10 + accepted steps) (atol + rtol |y|); largest observed on the unchanged tree: 0.4 of that); backward "
+                      "Euler against the composition of closed-form implicit-Euler maps for the step sizes its controller "
+                      "prescribes (h_start 0 / fractions of the interval), 1e-12 relative")
+PROPS["C08"].trusted = PROPS["C08"].trusted + _slv_trust
